@@ -76,6 +76,8 @@ fn v1_cases() -> Vec<Vec<u8>> {
         out.push(l.as_bytes().to_vec());
     }
     for n in 100..112usize { out.push(vec![b'x'; n]); let mut p = b"PROXY UNKNOWN ".to_vec(); p.resize(n, b'y'); out.push(p); }
+    // a CR around the last position a line of 107 bytes allows (index 105), with and without the bytes after it
+    for cr in 103..109usize { for tail in [&b""[..], b"\n", b"\nX", b"X"] { let mut p = b"PROXY UNKNOWN ".to_vec(); p.resize(cr, b'a'); p.push(13); p.extend_from_slice(tail); out.push(p); } }
     out
 }
 
